@@ -18,6 +18,10 @@ MulOk(a, b, r) == Is64(r) /\ EqP(r, MulP(a, b))
 MacOk(s, x, y, r) == Is64(r) /\ EqP(r, ModP(AddN(s, MulN(x, y))))
 \* r = a^-1 (a # 0 mod p)
 InvOk(a, r) == Is64(r) /\ ModP(a) # Zero8 /\ MulP(a, r) = One8
+\* try_inverse: None exactly for the representations of zero (0 and p), otherwise the inverse
+TryInvOk(a, none, r) == IF ModP(a) = Zero8 THEN none ELSE ~none /\ InvOk(a, r)
+IsZeroOk(a, z) == z <=> (ModP(a) = Zero8)
+EqOk(a, b, z) == z <=> EqP(a, b)
 \* r = a^e, e an arbitrary natural
 ExpOk(a, e, r) == Is64(r) /\ EqP(r, PowP(a, e))
 \* r is the canonical representative of a
@@ -56,6 +60,7 @@ ExtMul(D, a0, b0) ==
 ExtAdd(a, b) == [i \in 1..Len(a) |-> AddP(a[i], b[i])]
 ExtSub(a, b) == [i \in 1..Len(a) |-> SubP(a[i], b[i])]
 
+ExtEqOk(D, a, b) == IsExt(D, a) /\ IsExt(D, b) /\ EqExt(a, b)
 ExtMulOk(D, a, b, r) == IsExt(D, r) /\ EqExt(r, ExtMul(D, a, b))
 ExtAddOk(D, a, b, r) == IsExt(D, r) /\ EqExt(r, ExtAdd(a, b))
 ExtSubOk(D, a, b, r) == IsExt(D, r) /\ EqExt(r, ExtSub(a, b))
